@@ -652,6 +652,71 @@ func TestMessageAlias(t *testing.T) {
 	evid.Exhaustive("write form x spelling x message value: reads through both spellings", n)
 }
 
+// TestForInPassScope: what a pass of a for-in leaves behind - one name, two names, a name made in a nested block - is
+// gone when the next pass begins, also when the loop variable is not new: it existed in an enclosing block (an outer
+// variable, the variable of an enclosing loop), so that the loop's own scope holds nothing but the body's names.
+func TestForInPassScope(t *testing.T) {
+	iters := []func() *gen.Node{
+		func() *gen.Node { return gen.NList(gen.NInt(1), gen.NInt(2), gen.NInt(3)) },
+		func() *gen.Node { return gen.NStr("abc") },
+		func() *gen.Node { return gen.NMap(gen.NStr("only"), gen.NInt(1)) }, // a single key: a second loop round comes from the enclosing loop
+	}
+	bodies := []struct {
+		name string
+		b    func() []*gen.Node
+	}{
+		{"one-name", func() []*gen.Node {
+			return []*gen.Node{gen.NCall("probe", gen.NStr("before"), id("tt")), gen.NSet("tt", gen.NBin("+", gen.NStr("-"), gen.NStr("x")))}
+		}},
+		{"two-names", func() []*gen.Node {
+			return []*gen.Node{gen.NCall("probe", gen.NStr("before"), id("tt"), id("uu")), gen.NSet("tt", gen.NInt(1)), gen.NSet("uu", gen.NInt(2))}
+		}},
+		{"compound", func() []*gen.Node {
+			return []*gen.Node{gen.NAssign("+=", []*gen.Node{id("tt")}, []*gen.Node{gen.NInt(1)}), gen.NCall("probe", gen.NStr("after"), id("tt"))}
+		}},
+		{"nested-block-name", func() []*gen.Node {
+			return []*gen.Node{gen.NCall("probe", gen.NStr("before"), id("tt")), gen.NIf([]*gen.Node{gen.NBool(true)}, [][]*gen.Node{{gen.NSet("tt", gen.NInt(5)), gen.NSet("inner", gen.NInt(1))}}, nil, false), gen.NSet("tt", gen.NInt(7))}
+		}},
+		{"conditional-first-pass", func() []*gen.Node {
+			return []*gen.Node{gen.NIf([]*gen.Node{gen.NBin("==", id("cnt"), gen.NInt(0))}, [][]*gen.Node{{gen.NSet("cnt", gen.NInt(1))}}, nil, false), gen.NCall("probe", gen.NStr("tt"), id("tt")), gen.NSet("tt", id("cnt"))}
+		}},
+	}
+	n := 0
+	for ii, it := range iters {
+		for _, bd := range bodies {
+			for pre := 0; pre < 5; pre++ {
+				for _, ptKey := range []bool{false, true} {
+					var prog []*gen.Node
+					loop := func(v string) *gen.Node { return gen.NForIn(v, it(), bd.b()) }
+					switch pre {
+					case 0: // the loop variable is new
+						prog = append(prog, gen.NSet("cnt", gen.NInt(0)), loop("x"))
+					case 1: // it exists at the top level
+						prog = append(prog, gen.NSet("cnt", gen.NInt(0)), gen.NSet("x", gen.NInt(0)), loop("x"))
+					case 2: // it is the variable of an enclosing loop
+						prog = append(prog, gen.NSet("cnt", gen.NInt(0)), gen.NForIn("x", gen.NList(gen.NInt(10), gen.NInt(20)), []*gen.Node{loop("x"), gen.NCall("probe", gen.NStr("outer-x"), id("x"))}))
+					case 3: // it exists in an enclosing block
+						prog = append(prog, gen.NSet("cnt", gen.NInt(0)), gen.NIf([]*gen.Node{gen.NBool(true)}, [][]*gen.Node{{gen.NSet("x", gen.NStr("blk")), loop("x"), gen.NCall("probe", gen.NStr("blk-x"), id("x"))}}, nil, false))
+					default: // the loop runs twice (an enclosing three-clause loop), its variable made before
+						prog = append(prog, gen.NSet("cnt", gen.NInt(0)), gen.NSet("x", gen.NNil()), gen.NFor(gen.NSet("o", gen.NInt(0)), gen.NBin("<", id("o"), gen.NInt(2)), gen.NSet("o", gen.NBin("+", id("o"), gen.NInt(1))), []*gen.Node{loop("x")}))
+					}
+					prog = append(prog, gen.NCall("probe", gen.NStr("end"), id("tt"), id("x")))
+					c := sem.NewCase(gen.FixAll(prog))
+					c.Fields = map[string]any{"other": "o"}
+					if ptKey {
+						c.Fields["tt"] = "from the point"
+					}
+					judge(t, "pass-scope", c, true, "for-in-pass-scope/"+bd.name)
+					n++
+					// the same program on the v2 interpreter where the name is defined (v2: an undefined name is an error)
+				}
+			}
+		}
+		_ = ii
+	}
+	evid.Exhaustive("iterable kind x body x where the loop variable comes from x point key of the body's name", n)
+}
+
 // TestValuelessAssignment: `NAME = <expression without a value>` is an assignment like any other: NAME becomes (or
 // stays) a variable of the current block that reads as nil - it hides a point key of that name, is what nested
 // blocks update, and vanishes with its block.
